@@ -161,6 +161,20 @@ static FWire c08(Reader& r,FReader& f) {
         Mesh src("m"+std::to_string(mid)+"/src"+std::to_string(k)+".tri");
         return outMat(SurfSourceMat(g,src));
     }
+    case 10: {  // reuse stream: ONE Geometry object loaded with model A, used, re-loaded with model B, then asked for the same
+                // dipole list first.  which: 0 DipSourceMat, 1 DipSource2InternalPotMat (points = the floats after the dipoles)
+        const ll midA=r.z(), midB=r.z(), which=r.z(); const unsigned order=(unsigned)r.n(), levels=(unsigned)r.n(); const size_t nd=r.n(), np=r.n();
+        const double tol=f.x(); const Matrix D = getDipoles(nd,f); const Matrix P = getPoints(np,f);
+        const std::string a = "m"+std::to_string(midA)+"/", b = "m"+std::to_string(midB)+"/";
+        Geometry g(a+"model.geom",a+"model.cond");
+        try {
+            if (which==0) (void)DipSourceMat(g,D,Integrator(order,levels,tol),"");
+            else          (void)DipSource2InternalPotMat(g,D,P,"");
+        } catch (...) { }      // the list is meant for B: in A it may be refused
+        g.load(b+"model.geom",b+"model.cond");
+        if (which==0) return outMat(DipSourceMat(g,D,Integrator(order,levels,tol),""));
+        return outMat(DipSource2InternalPotMat(g,D,P,""));
+    }
     case 6: {   // the quadrature tables compiled into the library
         FWire o; o.z.push_back(ST_OK);
         for (unsigned ord=1; ord<4; ++ord) {
